@@ -129,6 +129,7 @@ def basis_spline(  # pylint: disable=dangerous-default-value  # always replaced 
         SplineExtrapolation.CLIP,
         SplineExtrapolation.NA,
         SplineExtrapolation.ZERO,
+        SplineExtrapolation.EXTEND,  # (knots are chosen from in-range values)
     ):
         locs = (x >= lower_bound) & (x <= upper_bound)
         if not numpy.all(locs):
